@@ -210,7 +210,7 @@ pub fn mutate_fen(rng: &mut StdRng, base: &str) -> String {
             // row with 7 / 9 squares, digits 0 / 9
             let mut rows: Vec<String> = fields[0].split('/').map(|x| x.to_string()).collect();
             let i = rng.gen_range(0..rows.len());
-            rows[i] = ["7", "9", "0", "44p", "pppppppp1", "8/8", "", "p7p", "1p6k"][rng.gen_range(0..9)].to_string();
+            rows[i] = ["7", "9", "0", "44p", "pppppppp1", "8/8", "", "p7p", "1p6k", "8ppp", "7PPPP", "p7ppp", "44nnn", "8p", "71pp", "6rrrr", "5k5", "8PPPPPPPP"][rng.gen_range(0..18)].to_string();
             fields[0] = rows.join("/");
         }
         6 => {
@@ -262,6 +262,16 @@ pub fn fen_events(t: &Tables, seeds: &[String], dir: &str, nshards: usize, seed:
             let half = COUNTERS[rng.gen_range(0..COUNTERS.len())];
             let full = COUNTERS[rng.gen_range(1..COUNTERS.len())];
             let fen = to_fen(&board, half, full);
+            if board.pawn_double_move.is_some() {
+                // the same placement loaded first WITHOUT its en-passant field (a loader that remembers its last input
+                // must not confuse the two)
+                let mut nb = board.clone();
+                nb.pawn_double_move = None;
+                nb.zobrist_key = t.scratch_key(&nb);
+                out.emit(n % nshards, &fen_load_event(t, &to_fen(&nb, half, full), "spec", Some((&nb, half, full))));
+                n += 1;
+                n_spec += 1;
+            }
             out.emit(n % nshards, &fen_load_event(t, &fen, "spec", Some((&board, half, full))));
             n += 1;
             n_spec += 1;
@@ -331,6 +341,11 @@ fn eval_event(t: &Tables, pcs: &[(u32, u32)], stm: u32, fam: &str, rng: &mut Std
     let e_m = get_evaluation(&m);
     let sw = board_from(t, pcs, 1 - stm, 0, 0);
     let e_swap = get_evaluation(&sw);
+    // the same placement with the other side to move and the key left as it was (this is how the search makes its null move)
+    let mut sw2 = b.clone();
+    sw2.to_move = sw.to_move;
+    let e_swap_stalekey = get_evaluation(&sw2);
+    let e_again = get_evaluation(&b);
     // variants differing only in non placement fields
     let mut vars = Vec::new();
     let mut v1 = b.clone();
@@ -348,7 +363,7 @@ fn eval_event(t: &Tables, pcs: &[(u32, u32)], stm: u32, fam: &str, rng: &mut Std
     v3.white_king_location = point_of(rng.gen_range(1..=64));
     v3.black_king_location = point_of(rng.gen_range(1..=64));
     vars.push(get_evaluation(&v3));
-    json!({"ev": "eval", "fam": fam, "p": t.state(&b), "e": e, "mirror": t.state(&m), "e_m": e_m, "e_swap": e_swap, "e_var": vars})
+    json!({"ev": "eval", "fam": fam, "p": t.state(&b), "e": e, "mirror": t.state(&m), "e_m": e_m, "e_swap": e_swap, "e_swap_stalekey": e_swap_stalekey, "e_again": e_again, "e_var": vars})
 }
 
 pub fn eval_events(t: &Tables, dir: &str, nshards: usize, seed: u64, randoms: u64) -> Value {
